@@ -540,7 +540,15 @@ fn plant(left: Left, data: &Path, ws: &Path, rng: &mut Rng) -> Result<Planted, S
     let lock_path = ripd::authority_lock_path(data);
     let meta_path = ripd::authority_meta_path(data);
     let mut p = Planted { dead_pid: None, sleeper: None, sleeper2: None, responder: None, lock_bytes: None, meta_bytes: None };
-    let started = 1_700_000_000_000u64 + rng.below(1_000_000);
+    // what the owner wrote as its start time is its own wall-clock reading: long ago (before this machine booted),
+    // just now, in the future, or nonsense — liveness of the owner must not depend on it
+    let now_ms = std::time::SystemTime::now().duration_since(std::time::UNIX_EPOCH).map(|d| d.as_millis() as u64).unwrap_or(1_700_000_000_000);
+    let started = match rng.below(20) {
+        0..=11 => 1_700_000_000_000u64 + rng.below(1_000_000),
+        12..=16 => now_ms.saturating_sub(rng.below(30_000)),
+        17 | 18 => now_ms + 86_400_000 + rng.below(1_000_000),
+        _ => 1 + rng.below(1000),
+    };
     let mut lock: Option<Vec<u8>> = None;
     let mut meta: Option<Vec<u8>> = None;
     match left {
